@@ -5,8 +5,8 @@
   (`ParsePattern`) + `types.NewPattern`.
 
   Strings are `List Char` (valid UTF-8 only; Go's behaviour on invalid UTF-8 is outside the model).
-  One Go quirk is kept on purpose: `nextRune` reports an error whenever the decoded rune is
-  `utf8.RuneError` (U+FFFD) — also for a *validly encoded* U+FFFD.
+  `nextRune` reports an error only for an encoding error or the end of the input (`utf8.RuneError` with
+  width ≤ 1); a validly encoded U+FFFD is an ordinary character (repaired defect `replacement-char-rejected`).
 -/
 import CedarGo.Model.Text.UnicodeTables
 import CedarGo.Model.Expr
@@ -122,7 +122,6 @@ def unquoteAux (star : Bool) : USt → List Char → List Char → Except UErr (
   | .normal, acc, [] => .ok (acc.reverse, [])
   | _, _, [] => .error .badRune           -- `nextRune` at the end of the input
   | st, acc, c :: cs =>
-    if c == replacementChar then .error .badRune else
     match st with
     | .normal =>
       if star && c == '*' then .ok (acc.reverse, c :: cs)
